@@ -213,7 +213,7 @@ def finish(mod, tier, seed, total, wall, njobs):
     for v in total.violations:
         byfp.setdefault(v["fingerprint"], []).append(v)
     new, knownhits = [], []
-    rdir = os.path.join(VERIF, "replays", pid)
+    rdir = os.path.join(os.environ.get("VERIF_REPLAY_DIR") or os.path.join(VERIF, "replays"), pid)  # env: tools/run_on.sh (parallel runs on scratch trees)
     shutil.rmtree(rdir, ignore_errors=True)  # replay files always belong to the latest run
     for fp, vs in sorted(byfp.items()):
         k = match_known(known, pid, fp)
